@@ -362,6 +362,17 @@ func (w *World) generic(rs reqSpec, r *Resp) {
 				x.viol([]string{"C01"}, "get.digest-mismatch", r.route, fmt.Sprintf("GET %s: body (%d bytes) hashes to %s, served as %s", rs.path, len(r.Body), got, d))
 			}
 		}
+		// … and, addressed by digest, to the digest it was asked for
+		if i := strings.LastIndex(rs.path, "/"); i >= 0 && validDigest(rs.path[i+1:]) {
+			asked := rs.path[i+1:]
+			if rs.method == "GET" {
+				if got := digestOf(algoOf(asked), r.Body); got != asked {
+					x.viol([]string{"C01"}, "get.digest-mismatch", r.route+" by digest: other content", fmt.Sprintf("GET %s: body (%d bytes) hashes to %s, asked for %s (Docker-Content-Digest %s)", rs.path, len(r.Body), got, asked, d))
+				}
+			} else if algoOf(asked) == algoOf(d) && asked != d {
+				x.viol([]string{"C01"}, "get.digest-mismatch", r.route+" by digest: other content", fmt.Sprintf("HEAD %s: answered 200 for %s", rs.path, d))
+			}
+		}
 	}
 }
 
